@@ -234,6 +234,10 @@ def check(case, rec: Rec) -> None:
 REQUIRED_LABELS = {"rewritten-file-without-final-newline": 0.05, "self-link": 0.05, "true-link-in-zot/zoq": 0.05, "A-in-subdir": 0.05}
 
 
+def sample_view(case):
+    return f"rename {case['a_arg']} -> {case['b_arg']}\n" + "\n".join(f"--- {rel}\n{t}" for rel, t in case["files"].items())
+
+
 def parts(tier):
     return [HypPart(name="rename", check=check, strategy=_case,
                     examples=90 if tier == "quick" else 3000,
